@@ -281,6 +281,11 @@ func findPSMOptions(srcMsg protoreflect.MessageDescriptor) (*schema_j5pb.EntityO
 		}
 
 		psmExt = proto.GetExtension(msg.Options(), ext_j5pb.E_Psm).(*ext_j5pb.PSMOptions)
+		if psmExt != nil && psmExt.EntityPart != nil {
+			// the annotation says which part the keys message itself is, it
+			// is not the legacy form which stands for the whole entity.
+			return nil, nil
+		}
 	}
 
 	if psmExt == nil {
